@@ -223,18 +223,26 @@ Proof.
   rewrite Forall_forall in H0. rewrite <- Hp0. apply H0. exact Hin0.
 Qed.
 
-Lemma rebuild_only_required required aliases found ordered blocks :
-  Forall (all_required required) (fst (fst (fst (rebuild_blocks required aliases found ordered blocks)))).
+Lemma finish_only_required required aliases added blocks2 :
+  Forall (all_required required) (fst (finish_blocks required aliases added blocks2)).
 Proof.
-  unfold rebuild_blocks. cbn zeta. cbn [fst].
+  unfold finish_blocks. cbn zeta. cbn [fst].
   match goal with |- Forall _ (filter _ ?l) => assert (H : Forall (all_required required) l) end.
   { match goal with |- Forall _ (if ?c then respace_head ?x else ?x) =>
       assert (Hx : Forall (all_required required) x) end.
     { apply Forall_forall. intros b Hb. apply in_map_iff in Hb. destruct Hb as [[b1 d1] [<- Hb]].
       apply in_map_iff in Hb. destruct Hb as [b2 [Hb _]]. rewrite <- Hb. apply update_block_paths. }
-    destruct (negb _); [apply respace_head_required|]; exact Hx. }
+    destruct added; [apply respace_head_required|]; exact Hx. }
   apply Forall_forall. intros b Hb. apply filter_In in Hb. destruct Hb as [Hb _].
   rewrite Forall_forall in H. apply H. exact Hb.
+Qed.
+
+Lemma rebuild_only_required required aliases found ordered blocks :
+  Forall (all_required required) (fst (fst (fst (rebuild_blocks required aliases found ordered blocks)))).
+Proof.
+  unfold rebuild_blocks. cbn zeta.
+  match goal with |- context [finish_blocks ?r ?a ?ad ?b2] => pose proof (finish_only_required r a ad b2) as H; destruct (finish_blocks r a ad b2) as [bs del] end.
+  cbn [fst] in *. exact H.
 Qed.
 
 Theorem only_required_imports_remain resolve local alias all_blocks used bs del names nb added :
@@ -285,10 +293,234 @@ Proof.
   intros Hm Hall. unfold rebuild_blocks. rewrite Hm. cbn zeta. cbn [negb andb].
   assert (H2 : add_missing aliases [] false blocks = blocks).
   { destruct blocks as [|b0 rest]; cbn; [reflexivity|]. rewrite app_nil_r. destruct b0; reflexivity. }
-  rewrite H2.
+  rewrite H2. unfold finish_blocks. cbn zeta.
   assert (Hu : map (update_block required aliases) blocks = map (fun b => (b, false)) blocks).
   { apply map_ext_in. intros b Hb. apply update_block_id. intros s Hs. apply (Hall b s Hb Hs). }
   rewrite Hu. rewrite !map_map. cbn [fst snd].
   rewrite filter_snd_false. cbn [map existsb negb]. rewrite map_id.
   rewrite filter_all_true. reflexivity.
+Qed.
+
+(* ---- every required path ends up imported under the alias chosen for it -------------------- *)
+Lemma In_insert_sorted {A} (key : A -> string) x y l : In y (insert_sorted key x l) <-> y = x \/ In y l.
+Proof.
+  induction l as [|z r IH]; cbn [insert_sorted In]; [intuition|].
+  destruct (path_less (key x) (key z)); cbn [In]; [intuition|]. rewrite IH. intuition.
+Qed.
+
+Lemma In_sort_by {A} (key : A -> string) y l : In y (sort_by key l) <-> In y l.
+Proof.
+  unfold sort_by. induction l as [|x r IH]; cbn [fold_right In]; [tauto|]. rewrite In_insert_sorted, IH. split; intros [H|H]; auto.
+Qed.
+
+Lemma respace_keeps l : forall fd s, In s l ->
+  exists s', In s' (respace fd l) /\ s_path s' = s_path s /\ s_name s' = s_name s.
+Proof.
+  induction l as [|x r IH]; intros fd s Hin; [destruct Hin|].
+  cbn [respace]. destruct Hin as [->|Hin].
+  - destruct (has_dot (s_path s) && negb fd); eexists; (split; [left; reflexivity|split; reflexivity]).
+  - destruct (has_dot (s_path x) && negb fd).
+    + destruct (IH true s Hin) as [s' [H1 H2]]. exists s'. split; [right; exact H1|exact H2].
+    + destruct (IH fd s Hin) as [s' [H1 H2]]. exists s'. split; [right; exact H1|exact H2].
+Qed.
+
+Lemma update_block_keeps required aliases b s :
+  In s (b_specs b) -> mem (s_path s) required = true ->
+  In (fix_spec aliases s) (b_specs (fst (update_block required aliases b))) /\
+  snd (update_block required aliases b) = false /\ b_id (fst (update_block required aliases b)) = b_id b.
+Proof.
+  intros Hin Hm. unfold update_block.
+  set (specs := map (fix_spec aliases) (filter (fun s => mem (s_path s) required) (b_specs b))).
+  assert (Hs : In (fix_spec aliases s) specs).
+  { subst specs. apply in_map. apply filter_In. split; assumption. }
+  destruct (Nat.eqb (List.length specs) (List.length (b_specs b))); [cbn; auto|].
+  destruct (Nat.eqb_spec (List.length specs) 0) as [H0|H0].
+  - destruct specs; [destruct Hs|discriminate].
+  - cbn. auto.
+Qed.
+
+Lemma update_block_id_kept required aliases b : b_id (fst (update_block required aliases b)) = b_id b.
+Proof.
+  unfold update_block. destruct (Nat.eqb _ _); [reflexivity|]. destruct (Nat.eqb _ 0); reflexivity.
+Qed.
+
+Lemma not_deleted_if_unique required aliases blocks2 b :
+  NoDup (map b_id blocks2) -> In b blocks2 -> snd (update_block required aliases b) = false ->
+  existsb (N.eqb (b_id b))
+          (map (fun bd : block * bool => b_id (fst bd)) (filter (fun bd => snd bd) (map (update_block required aliases) blocks2))) = false.
+Proof.
+  intros Hnd Hin Hflag.
+  destruct (existsb _ _) eqn:E; [|reflexivity]. exfalso.
+  apply existsb_exists in E. destruct E as [i [Hi Heq]]. apply N.eqb_eq in Heq. subst i.
+  apply in_map_iff in Hi. destruct Hi as [[b' d'] [Hid Hf]]. cbn [fst] in Hid.
+  apply filter_In in Hf. destruct Hf as [Hm Hd]. cbn [snd] in Hd.
+  apply in_map_iff in Hm. destruct Hm as [b0 [Hu Hin0]].
+  assert (Hid0 : b_id b0 = b_id b).
+  { rewrite <- Hid. replace b' with (fst (update_block required aliases b0)) by (rewrite Hu; reflexivity).
+    symmetry. apply update_block_id_kept. }
+  (* same id, NoDup ids => same block *)
+  assert (Hsame : b0 = b).
+  { clear - Hnd Hin Hin0 Hid0. induction blocks2 as [|x r IH]; [destruct Hin|].
+    cbn in Hnd. inversion Hnd as [|? ? Hn Hnd']; subst.
+    destruct Hin as [->|Hin], Hin0 as [->|Hin0]; auto.
+    - exfalso. apply Hn. rewrite <- Hid0. apply (in_map b_id _ _ Hin0).
+    - exfalso. apply Hn. rewrite Hid0. apply (in_map b_id _ _ Hin). }
+  subst b0. rewrite Hu in Hflag. cbn [snd] in Hflag. congruence.
+Qed.
+
+Lemma finish_keeps required aliases added blocks2 b s :
+  NoDup (map b_id blocks2) -> In b blocks2 -> In s (b_specs b) -> mem (s_path s) required = true ->
+  exists b' s', In b' (fst (finish_blocks required aliases added blocks2)) /\ In s' (b_specs b') /\
+                s_path s' = s_path s /\ s_name s' = alias_of aliases (s_path s).
+Proof.
+  intros Hnd Hb Hs Hm. unfold finish_blocks. cbn zeta. cbn [fst].
+  destruct (update_block_keeps required aliases b s Hs Hm) as [Hk [Hflag Hid]].
+  set (b3 := fst (update_block required aliases b)) in *.
+  assert (Hb3 : In b3 (map fst (map (update_block required aliases) blocks2))).
+  { apply in_map_iff. exists (update_block required aliases b). split; [reflexivity|apply in_map; exact Hb]. }
+  pose proof (not_deleted_if_unique required aliases blocks2 b Hnd Hb Hflag) as Hnotdel.
+  destruct added.
+  - (* respaced head *)
+    remember (map fst (map (update_block required aliases) blocks2)) as blocks3 eqn:E3.
+    destruct blocks3 as [|h rest]; [destruct Hb3|]. cbn [respace_head].
+    destruct Hb3 as [Hh|Hr].
+    + subst h. destruct (respace_keeps (b_specs b3) false (fix_spec aliases s) Hk) as [s' [H1 [H2 H3]]].
+      exists (mkBlock (respace false (b_specs b3)) (negb (Nat.eqb (List.length (b_specs b3)) 1)) (b_id b3)), s'.
+      split; [|split; [exact H1|split; [rewrite H2; reflexivity|rewrite H3; reflexivity]]].
+      apply filter_In. split; [left; reflexivity|]. cbn [b_id]. rewrite Hid. rewrite Hnotdel. reflexivity.
+    + exists b3, (fix_spec aliases s). split; [|split; [exact Hk|split; reflexivity]].
+      apply filter_In. split; [right; exact Hr|]. rewrite Hid. rewrite Hnotdel. reflexivity.
+  - exists b3, (fix_spec aliases s). split; [|split; [exact Hk|split; reflexivity]].
+    apply filter_In. split; [exact Hb3|]. rewrite Hid. rewrite Hnotdel. reflexivity.
+Qed.
+
+Lemma add_missing_ids aliases missing added blocks1 : map b_id (add_missing aliases missing added blocks1) = map b_id blocks1.
+Proof. destruct blocks1 as [|b0 r]; reflexivity. Qed.
+
+Lemma add_missing_keeps aliases missing added blocks1 b s :
+  In b blocks1 -> In s (b_specs b) ->
+  exists b', In b' (add_missing aliases missing added blocks1) /\ In s (b_specs b').
+Proof.
+  destruct blocks1 as [|b0 r]; intros Hb Hs; [destruct Hb|]. cbn [add_missing].
+  destruct Hb as [->|Hb].
+  - eexists. split; [left; reflexivity|]. cbn [b_specs].
+    destruct added; [apply In_sort_by|]; apply in_or_app; left; exact Hs.
+  - exists b. split; [right; exact Hb|exact Hs].
+Qed.
+
+Lemma add_missing_adds aliases missing added blocks1 p :
+  blocks1 <> [] -> In p missing ->
+  exists b' s, In b' (add_missing aliases missing added blocks1) /\ In s (b_specs b') /\ s_path s = p.
+Proof.
+  destruct blocks1 as [|b0 r]; intros Hne Hp; [contradiction|]. cbn [add_missing].
+  eexists. exists (mkSpec p (alias_of aliases p) 0 SNone SNone). split; [left; reflexivity|]. split; [|reflexivity].
+  cbn [b_specs]. assert (Hin : In (mkSpec p (alias_of aliases p) 0 SNone SNone) (b_specs b0 ++ map (fun p => mkSpec p (alias_of aliases p) 0 SNone SNone) missing)).
+  { apply in_or_app. right. apply in_map_iff. exists p. auto. }
+  destruct added; [apply In_sort_by|]; exact Hin.
+Qed.
+
+(* Every required path is, after the update, imported by a spec of the managed blocks that
+   carries the alias chosen for it -- whether the spec was there (kept, re-aliased) or had to
+   be added; given that the path was found in a managed block when it was found at all, and
+   that blocks are distinct objects. *)
+Theorem required_path_is_imported required aliases found ordered blocks p :
+  NoDup (map b_id blocks) -> (forall b, In b blocks -> b_id b <> 0%N) ->
+  mem p required = true -> In p ordered ->
+  (ahas found p = true -> exists b s, In b blocks /\ In s (b_specs b) /\ s_path s = p) ->
+  exists b s, In b (fst (fst (fst (rebuild_blocks required aliases found ordered blocks)))) /\ In s (b_specs b) /\
+              s_path s = p /\ s_name s = alias_of aliases p.
+Proof.
+  intros Hnd Hnz Hreq Hord Hfound. unfold rebuild_blocks. cbn zeta.
+  set (missing := filter (fun p => negb (ahas found p)) ordered).
+  set (added := negb (match missing with [] => true | _ => false end)).
+  set (new_block := added && (match blocks with [] => true | _ => false end)).
+  set (blocks1 := if new_block then [mkBlock [] false 0] else blocks).
+  assert (Hnd1 : NoDup (map b_id blocks1)).
+  { subst blocks1. destruct new_block; [cbn; constructor; [intros []|constructor]|exact Hnd]. }
+  assert (Hchain : exists b2 s2, In b2 (add_missing aliases missing added blocks1) /\ In s2 (b_specs b2) /\ s_path s2 = p).
+  { destruct (ahas found p) eqn:Ef.
+    - destruct (Hfound eq_refl) as [b [s [Hb [Hs Hp]]]].
+      assert (Hb1 : In b blocks1).
+      { subst blocks1 new_block. destruct blocks; [destruct Hb|]. rewrite andb_false_r. exact Hb. }
+      destruct (add_missing_keeps aliases missing added blocks1 b s Hb1 Hs) as [b' [Hb' Hs']].
+      exists b', s. auto.
+    - assert (Hmiss : In p missing) by (subst missing; apply filter_In; split; [exact Hord|rewrite Ef; reflexivity]).
+      assert (Hadded : added = true) by (subst added; destruct missing; [destruct Hmiss|reflexivity]).
+      assert (Hne : blocks1 <> []).
+      { subst blocks1 new_block. rewrite Hadded. destruct blocks; cbn; discriminate. }
+      destruct (add_missing_adds aliases missing added blocks1 p Hne Hmiss) as [b' [s [H1 [H2 H3]]]]. eauto. }
+  destruct Hchain as [b2 [s2 [Hb2 [Hs2 Hp2]]]].
+  assert (Hnd2 : NoDup (map b_id (add_missing aliases missing added blocks1))) by (rewrite add_missing_ids; exact Hnd1).
+  assert (Hm2 : mem (s_path s2) required = true) by (rewrite Hp2; exact Hreq).
+  destruct (finish_keeps required aliases added _ b2 s2 Hnd2 Hb2 Hs2 Hm2) as [b' [s' [H1 [H2 [H3 H4]]]]].
+  destruct (finish_blocks required aliases added (add_missing aliases missing added blocks1)) as [bs del]. cbn [fst] in *.
+  exists b', s'. split; [exact H1|split; [exact H2|]]. rewrite H3, H4, Hp2. auto.
+Qed.
+
+(* ---- the alias written into the import spec binds the name used in the code ---------------- *)
+Definition res_name (resolved : amap) (p : string) : string := match aget resolved p with Some n => n | None => "" end.
+Definition eff_alias (eff : amap) (p : string) : string := match aget eff p with Some a => a | None => "" end.
+
+(* for path q: how the code names it (names) vs what the import spec says (aliases) *)
+Definition entry_ok (resolved eff names aliases : amap) (q : string) : Prop :=
+  if String.eqb (eff_alias eff q) "." || String.eqb (eff_alias eff q) "_"
+  then aget names q = Some "" /\ aget aliases q = Some (eff_alias eff q)
+  else exists n a, aget names q = Some n /\ aget aliases q = Some a /\
+                   ((a = "" /\ n = res_name resolved q) \/ a = n).
+
+Lemma find_alias_shape resolved names path preferred n a :
+  find_alias resolved names path preferred = (n, a) -> (a = "" /\ n = res_name resolved path) \/ a = n.
+Proof.
+  unfold find_alias, res_name.
+  set (cur := find_free _ _ _ _ _).
+  destruct (negb (negb (preferred =? "")) && (cur =? match aget resolved path with Some n0 => n0 | None => "" end)) eqn:E; intros H; inversion H; subst.
+  - apply andb_true_iff in E. destruct E as [_ E]. apply String.eqb_eq in E. left. split; [reflexivity|exact E].
+  - right. reflexivity.
+Qed.
+
+Theorem assigned_names_bind resolved eff : forall ordered names aliases,
+  NoDup ordered ->
+  (forall q, In q ordered -> aget names q = None /\ aget aliases q = None) ->
+  forall q0, (entry_ok resolved eff names aliases q0 \/ In q0 ordered) ->
+  let '(names', aliases') := fold_left (fun (st : amap * amap) path =>
+               let '(names, aliases) := st in
+               let alias := match aget eff path with Some a => a | None => "" end in
+               if String.eqb alias "." || String.eqb alias "_" then (aset names path "", aset aliases path alias)
+               else let '(n, a) := find_alias resolved names path alias in (aset names path n, aset aliases path a))
+            ordered (names, aliases) in
+  entry_ok resolved eff names' aliases' q0.
+Proof.
+  induction ordered as [|p r IH]; intros names aliases Hnd Hfresh q0 Hq0; cbn [fold_left].
+  - destruct Hq0 as [H|[]]. exact H.
+  - inversion Hnd as [|? ? Hnotin Hnd']; subst.
+    set (alias := match aget eff p with Some a => a | None => "" end).
+    destruct ((alias =? ".") || (alias =? "_")) eqn:Hdot.
+    + apply IH; [exact Hnd'| |].
+      * intros q Hq. destruct (Hfresh q (or_intror Hq)) as [A B].
+        assert (q <> p) by (intros ->; contradiction). rewrite !aget_aset_other by assumption. auto.
+      * destruct (String.eqb_spec q0 p) as [->|Hne].
+        -- left. unfold entry_ok, eff_alias. fold alias. rewrite Hdot. rewrite !aget_aset_same. auto.
+        -- destruct Hq0 as [H|[H|H]]; [|congruence|right; exact H].
+           left. unfold entry_ok in *. destruct ((eff_alias eff q0 =? ".") || (eff_alias eff q0 =? "_")).
+           ++ rewrite !aget_aset_other by assumption. exact H.
+           ++ destruct H as [n [a H]]. exists n, a. rewrite !aget_aset_other by assumption. exact H.
+    + destruct (find_alias resolved names p alias) as [n a] eqn:Hfa.
+      apply IH; [exact Hnd'| |].
+      * intros q Hq. destruct (Hfresh q (or_intror Hq)) as [A B].
+        assert (q <> p) by (intros ->; contradiction). rewrite !aget_aset_other by assumption. auto.
+      * destruct (String.eqb_spec q0 p) as [->|Hne].
+        -- left. unfold entry_ok, eff_alias. fold alias. rewrite Hdot. exists n, a. rewrite !aget_aset_same.
+           split; [reflexivity|split; [reflexivity|]]. apply (find_alias_shape _ _ _ _ _ _ Hfa).
+        -- destruct Hq0 as [H|[H|H]]; [|congruence|right; exact H].
+           left. unfold entry_ok in *. destruct ((eff_alias eff q0 =? ".") || (eff_alias eff q0 =? "_")).
+           ++ rewrite !aget_aset_other by assumption. exact H.
+           ++ destruct H as [n0 [a0 H]]. exists n0, a0. rewrite !aget_aset_other by assumption. exact H.
+Qed.
+
+Corollary assign_names_bind resolved eff ordered q :
+  NoDup ordered -> In q ordered ->
+  let '(names, aliases) := assign_names resolved eff ordered in entry_ok resolved eff names aliases q.
+Proof.
+  intros Hnd Hin. unfold assign_names.
+  apply (assigned_names_bind resolved eff ordered [] [] Hnd); [intros; split; reflexivity|right; exact Hin].
 Qed.
